@@ -516,3 +516,531 @@ def rule_neg(ctx, floor=4):
                        'compact fast path before the IsNeg test; signed C-API converter in the unsigned worker that is called from an unchecked site when PyLong '
                        'internals are off (the unsigned C-API converter next to it is accepted)')
     return r
+
+
+# ====================================================================================================================================
+# C05-MODEL: bounded model check of the CIntFromPy / CIntToPy templates on a model machine with a model PyLong
+# ====================================================================================================================================
+"""(C05-MODEL)  CIntFromPy is a width-parametric template: it mentions the width of {{TYPE}}, of long / long long and of a PyLong digit only
+through sizeof(), PyLong_SHIFT and the literal 8.  The rule instantiates the template (Tempita expanded by the checker, pylong_join kept as an
+opaque call with its documented meaning), resolves the preprocessor for five build variants (PyLong internals on 3.12 / 3.13, and no internals
+on CPython < 3.12, on PyPy-like builds, on 3.13) and evaluates `{{FROM_PY_FUNCTION}}(x)` with the checker's C interpreter (rules/pC03.py) on
+model machines with an 8-bit byte, 3-bit PyLong digits and
+
+    TYPE 8 bit / long 16 bit        (TYPE narrower than long:   the range check of __PYX_VERIFY_RETURN_INT does the work)
+    TYPE 8 bit / long 8 bit         (TYPE as wide as long:      the digit guards do the work, like long with 30-bit digits)
+    TYPE 16 bit / long 8 / ll 16    (TYPE wider than long:      the TYPE-typed joins, like long long on a 32-bit-long platform)
+    TYPE 32 bit / long 8 / ll 16    (TYPE wider than long long: __Pyx_LargePyLong_*)
+
+each signed and unsigned, for EVERY Python int of up to three digits (|v| <= 520: the complete input domain of the 2- and 3-digit fast paths
+at these widths) plus the complete boundary set around every power of two up to 2**34 and digit patterns of 4..6 digits.  The PyLong accessors
+and the C-API converters are modelled by their documented contracts (hooks below; trusted).  Obligation per value v and variant:
+
+    v fits TYPE         =>  the function returns v and no exception is set
+    v does not fit      =>  OverflowError is set and the function returns (TYPE) -1
+    x is not an int     =>  __index__/__int__ result converted as above, or TypeError and (TYPE) -1
+    no undefined C operation is executed
+
+CIntToPy is evaluated the same way for every value of the 8-bit types and the boundary values of the wider ones: the PyLong handed to Python
+has the value of the C integer.  NOT decided: the transfer from the model widths to the production widths (parametricity premise, checked
+syntactically: no integer literal other than 0, 1, 2, 8 and the documented constants 53/62/30/200 outside the modelled arms), the accessor
+macros themselves, the bit-chunk fallback of __Pyx_LargePyLong_* (limited API / PyPy), int.from_bytes() fallback of CIntToPy."""
+import ast
+from . import pC03 as MC
+from . import pC02 as P2
+
+MODEL_RID = 'C05-MODEL'
+DIGIT_BITS = 3
+MACHINES = (
+    ('TYPE narrower than long', 8, 16, 16),
+    ('TYPE as wide as long', 8, 8, 16),
+    ('TYPE wider than long', 16, 8, 16),
+    ('TYPE wider than long long', 32, 8, 16),
+)
+PP_VARIANTS = (
+    ('PyLong internals, 3.12', dict(CYTHON_USE_PYLONG_INTERNALS=1, CYTHON_COMPILING_IN_CPYTHON=1, CYTHON_COMPILING_IN_PYPY=0, CYTHON_COMPILING_IN_LIMITED_API=0, PY_VERSION_HEX=0x030C00F0)),
+    ('PyLong internals, 3.13', dict(CYTHON_USE_PYLONG_INTERNALS=1, CYTHON_COMPILING_IN_CPYTHON=1, CYTHON_COMPILING_IN_PYPY=0, CYTHON_COMPILING_IN_LIMITED_API=0, PY_VERSION_HEX=0x030D00F0)),
+    ('no internals, CPython 3.11', dict(CYTHON_USE_PYLONG_INTERNALS=0, CYTHON_COMPILING_IN_CPYTHON=1, CYTHON_COMPILING_IN_PYPY=0, CYTHON_COMPILING_IN_LIMITED_API=0, PY_VERSION_HEX=0x030B00F0)),
+    ('no internals, PyPy-like 3.11', dict(CYTHON_USE_PYLONG_INTERNALS=0, CYTHON_COMPILING_IN_CPYTHON=0, CYTHON_COMPILING_IN_PYPY=1, CYTHON_COMPILING_IN_LIMITED_API=0, PY_VERSION_HEX=0x030B00F0)),
+    ('no internals, CPython 3.13', dict(CYTHON_USE_PYLONG_INTERNALS=0, CYTHON_COMPILING_IN_CPYTHON=1, CYTHON_COMPILING_IN_PYPY=0, CYTHON_COMPILING_IN_LIMITED_API=0, PY_VERSION_HEX=0x030D00F0)),
+)
+NATIVE_FLAGS = {'Py_ASNATIVEBYTES_DEFAULTS': -1, 'Py_ASNATIVEBYTES_BIG_ENDIAN': 0, 'Py_ASNATIVEBYTES_LITTLE_ENDIAN': 1, 'Py_ASNATIVEBYTES_NATIVE_ENDIAN': 3,
+                'Py_ASNATIVEBYTES_UNSIGNED_BUFFER': 4, 'Py_ASNATIVEBYTES_REJECT_NEGATIVE': 8}       # cpython/longobject.h (3.13)
+
+
+def pp_truth(cfg):
+    def truth(cond):
+        c = re.sub(r'defined\s*\(\s*(\w+)\s*\)|defined\s+(\w+)', lambda m: '1' if (m.group(1) or m.group(2)) in cfg.get('__defined__', ()) else '0', cond)
+        env = dict(cfg)
+        env.setdefault('__PYX_LIMITED_VERSION_HEX', cfg.get('PY_VERSION_HEX', 0))
+        try:
+            return bool(cexpr.evaluate(cexpr.parse(c), env))
+        except (cexpr.ParseError, cexpr.EvalError) as e:
+            raise AnalysisError('%s: preprocessor condition `%s` is not modelled (%s)' % (MODEL_RID, cond, e))
+    return truth
+
+
+def model_machine(tbits, signed, lbits, llbits, sizebits=16):
+    return MC.Model({'char': (8, True), 'short': (8, True), 'int': (8, True), 'long': (lbits, True), 'long long': (llbits, True),
+                     'size_t': (sizebits, False), 'Py_ssize_t': (sizebits, True), 'sa_compact_t': (16, True), 'sa_ucompact_t': (16, False),
+                     'digit': (8, False), 'sdigit': (8, True), 'sa_t': (tbits, signed)}, '%d-bit TYPE, %d-bit long, %d-bit long long' % (tbits, lbits, llbits))
+
+
+def _digits(v):
+    v, out = abs(v), []
+    while v:
+        out.append(v & ((1 << DIGIT_BITS) - 1))
+        v >>= DIGIT_BITS
+    return out
+
+
+class _State:
+    def __init__(self):
+        self.err = None
+        self.little = True       # byte order of the model machine
+
+
+def _pyobj(v):
+    return MC.Opaque('pyobj', v)
+
+
+def model_hooks(state, join_default):
+    def obj(it, a, env):
+        o = it.ev(a, env)
+        if isinstance(o, MC.Opaque) and o.kind == 'null':
+            raise MC.CUndefined('a NULL PyObject* is dereferenced')
+        if not (isinstance(o, MC.Opaque) and o.kind == 'pyobj'):
+            raise MC.Unsupported('a PyObject* argument is not a model object: %r' % (o,))
+        return o
+
+    def ival(it, a, env):
+        o = obj(it, a, env)
+        if not isinstance(o.v, int):
+            raise MC.CUndefined('a PyLong accessor is applied to an object that is not an int')
+        return o.v
+
+    def T(it, name):
+        return it.model.ctype(name)
+
+    def mk(v, t):
+        return (MC.wrap(v, t[0], t[1]), t[0], t[1])
+
+    def boolv(it, b):
+        return (int(bool(b)), it.model.int_t[0], True)
+
+    def as_c(tname, reject_neg=False, exc='OverflowError'):
+        def h(it, args, env):
+            v = ival(it, args[0], env)
+            t = T(it, tname)
+            if (reject_neg and v < 0) or not MC.fits(v, t[0], t[1]):
+                state.err = state.err or exc
+                return mk(-1, t)
+            return mk(v, t)
+        return h
+
+    def seterr(it, args, env):
+        e = it.ev(args[0], env)
+        if not (isinstance(e, MC.Opaque) and e.kind == 'exc'):
+            raise MC.Unsupported('PyErr_* with an unknown exception object')
+        state.err = e.v
+        return None
+
+    def join(it, args, env):
+        n = it._int(it.ev(args[0], env))[0]
+        arr = it.ev(args[1], env)
+        if not (isinstance(arr, MC.Opaque) and arr.kind == 'array'):
+            raise MC.Unsupported('pylong_join of a non-array')
+        tname = join_default
+        if len(args) > 2:
+            if args[2][0] != 'id':
+                raise MC.Unsupported('pylong_join type argument')
+            tname = args[2][1].replace('unsigned_', 'unsigned ').replace('long_long', 'long long').replace('PY_LONG_LONG', 'long long')
+        t = T(it, tname)
+        vals = arr.v[0]
+        if n > len(vals):
+            raise MC.CUndefined('pylong_join reads %d digits of a PyLong that has %d' % (n, len(vals)))
+        acc = 0
+        for i in range(n - 1, -1, -1):
+            if i != n - 1:
+                if t[1] and not MC.fits(acc << DIGIT_BITS, t[0], True):
+                    raise MC.CUndefined('joining %d digits shifts into the sign bit of the %d-bit signed join type' % (n, t[0]))
+                acc = MC.wrap(acc << DIGIT_BITS, t[0], t[1])
+            acc = MC.wrap(acc | vals[i], t[0], t[1])
+        return (acc, t[0], t[1])
+
+    def native_bytes(it, args, env):
+        v = ival(it, args[0], env)
+        ref = it.ev(args[1], env)
+        n = it._int(it.ev(args[2], env))[0]
+        flags = it._int(it.ev(args[3], env))[0]
+        if not isinstance(ref, MC.Ref):
+            raise MC.Unsupported('PyLong_AsNativeBytes: buffer is not the address of a variable')
+        if flags == -1:
+            flags = 3
+        if (flags & 8) and v < 0:
+            state.err = state.err or 'ValueError'
+            return mk(-1, T(it, 'Py_ssize_t'))
+        t = ref.cell.t
+        ref.cell.v = MC.wrap(v, t[0], t[1])
+        bits = (v.bit_length() if v >= 0 else (-v - 1).bit_length()) + 1
+        if (flags & 4) and v >= 0:
+            bits = max(v.bit_length(), 1)
+        return mk((bits + 7) // 8, T(it, 'Py_ssize_t'))
+
+    def as_byte_array(it, args, env):
+        v = ival(it, args[0], env)
+        ref = it.ev(args[1], env)
+        n = it._int(it.ev(args[2], env))[0]
+        is_signed = it._int(it.ev(args[4], env))[0]
+        if not isinstance(ref, MC.Ref):
+            raise MC.Unsupported('_PyLong_AsByteArray: buffer is not the address of a variable')
+        t = ref.cell.t
+        little = it._int(it.ev(args[3], env))[0]
+        ok = (v >= 0 or is_signed) and MC.fits(v, 8 * n, bool(is_signed))
+        stored = MC.wrap(v, 8 * n, False)
+        if bool(little) != state.little:
+            stored = int.from_bytes(stored.to_bytes(n, 'little'), 'big')        # written in the other byte order than the machine reads
+        ref.cell.v = MC.wrap(stored, t[0], t[1])
+        if not ok:
+            state.err = state.err or 'OverflowError'
+            return mk(-1, it.model.int_t)
+        return mk(0, it.model.int_t)
+
+    def number_long(it, args, env):
+        o = obj(it, args[0], env)
+        if isinstance(o.v, int):
+            return o
+        if isinstance(o.v, tuple) and o.v[0] == 'index':
+            return _pyobj(o.v[1])
+        state.err = state.err or 'TypeError'
+        return MC.NULL
+
+    def noop(it, args, env):
+        return None
+    h = {
+        '__Pyx_PyLong_IsNeg': lambda it, a, e: boolv(it, ival(it, a[0], e) < 0),
+        '__Pyx_PyLong_IsZero': lambda it, a, e: boolv(it, ival(it, a[0], e) == 0),
+        '__Pyx_PyLong_IsPos': lambda it, a, e: boolv(it, ival(it, a[0], e) > 0),
+        '__Pyx_PyLong_IsNonNeg': lambda it, a, e: boolv(it, ival(it, a[0], e) >= 0),
+        '__Pyx_PyLong_IsCompact': lambda it, a, e: boolv(it, len(_digits(ival(it, a[0], e))) <= 1),
+        '__Pyx_PyLong_CompactValue': lambda it, a, e: mk(ival(it, a[0], e), T(it, 'sa_compact_t')),
+        '__Pyx_PyLong_CompactValueUnsigned': lambda it, a, e: mk((_digits(ival(it, a[0], e)) or [0])[0], T(it, 'sa_ucompact_t')),
+        '__Pyx_PyLong_DigitCount': lambda it, a, e: mk(len(_digits(ival(it, a[0], e))), T(it, 'Py_ssize_t')),
+        '__Pyx_PyLong_Digits': lambda it, a, e: MC.Opaque('array', (_digits(ival(it, a[0], e)), T(it, 'digit'))),
+        'Py_SIZE': lambda it, a, e: mk((1 if ival(it, a[0], e) >= 0 else -1) * len(_digits(ival(it, a[0], e))), T(it, 'Py_ssize_t')),
+        'PyLong_AsLong': as_c('long'), 'PyLong_AsUnsignedLong': as_c('unsigned long', True), 'PyLong_AsLongLong': as_c('long long'),
+        'PyLong_AsUnsignedLongLong': as_c('unsigned long long', True), 'PyLong_AsInt': as_c('int'), 'PyLong_AsSsize_t': as_c('Py_ssize_t'),
+        'PyLong_AsSize_t': as_c('size_t', True),
+        'PyObject_RichCompareBool': lambda it, a, e: boolv(it, ival(it, a[0], e) < 0),
+        'PyErr_Occurred': lambda it, a, e: boolv(it, state.err is not None),
+        'PyErr_Format': seterr, 'PyErr_SetString': seterr,
+        'PyLong_Check': lambda it, a, e: boolv(it, isinstance(obj(it, a[0], e).v, int)),
+        'PyLong_CheckExact': lambda it, a, e: boolv(it, isinstance(obj(it, a[0], e).v, int)),
+        '__Pyx_PyNumber_Long': number_long,
+        'Py_DECREF': noop, 'Py_XDECREF': noop, 'Py_INCREF': noop,
+        '__imported_pylong_join': join,
+        'PyLong_AsNativeBytes': native_bytes, '_PyLong_AsByteArray': as_byte_array,
+        '__sa_first_byte': lambda it, a, e: boolv(it, it._int(it.ev(a[0], e))[0] & 0xff if state.little else 0),
+    }
+    return h
+
+
+def model_values(tbits):
+    vals = set()
+    full = 520 if tbits <= 16 else 70
+    vals |= set(range(-full, full + 1))
+    for k in range(6, tbits + 3):
+        for d in (-2, -1, 0, 1, 2):
+            vals.add((1 << k) + d)
+            vals.add(-(1 << k) + d)
+    # digit patterns of 4..6 digits with digits from {0, 7} and a top digit from {1, 7}
+    if tbits > 8:
+        for nd in (4, 5, 6):
+            for top in (1, 7):
+                for mask in range(1 << (nd - 1)):
+                    v = top
+                    for i in range(nd - 1):
+                        v = (v << DIGIT_BITS) | (7 if mask >> i & 1 else 0)
+                    vals.add(v)
+                    vals.add(-v)
+    return sorted(vals)
+
+
+def instantiate_from_py(ctx, raw=None, verify_raw=None):
+    """(C text of CIntFromPy with Tempita expanded and comments stripped, macro definitions of CIntFromPyVerify)"""
+    if raw is None:
+        raw = P4.section_texts(ctx.cat, TC, SECTION)['impl'].raw
+    if verify_raw is None:
+        verify_raw = '\n'.join(s.raw for s in P4.section_texts(ctx.cat, TC, MACRO_SECTION).values())
+    text = P2.tpl_expand(P2.tpl_tree(raw), {'TYPE': 'sa_t', 'FROM_PY_FUNCTION': 'sa_from', 'IS_ENUM': False})
+    return _normalise(strip_c_comments(text)), MC.macros(_normalise(strip_c_comments(verify_raw)))
+
+
+ENDIAN_PROBE = re.compile(r'\(\s*int\s*\)\s*\*\s*\(\s*unsigned\s+char\s*\*\s*\)\s*&\s*(\w+)')
+
+
+def _normalise(text):
+    """spellings the shared expression parser does not know: typedef names that do not end in _t, and the byte-order probe `(int)*(unsigned char *)&one`
+    (replaced by a call that the model answers with the byte order of the model machine)"""
+    text = re.sub(r'\b__Pyx_compact_pylong\b', 'sa_compact_t', text)
+    text = re.sub(r'\b__Pyx_compact_upylong\b', 'sa_ucompact_t', text)
+    text = ENDIAN_PROBE.sub(r'__sa_first_byte(\1)', text)
+    text = re.sub(r'\(\s*(?:unsigned\s+)?char\s*\*\s*\)\s*&', '&', text)          # a pointer cast does not change what is pointed to
+    return re.sub(r'\(\s*PyLongObject\s*\*\s*\)', '', text)
+
+
+def join_default_type(ctx):
+    from ..engine import tables
+    fn = tables.find_function(ctx.parse('Cython/Utility/__init__.py'), 'pylong_join')
+    if fn is None:
+        raise AnalysisError('%s: Cython.Utility.pylong_join vanished' % MODEL_RID)
+    names = [a.arg for a in fn.args.args]
+    defaults = dict(zip(names[len(names) - len(fn.args.defaults):], fn.args.defaults))
+    d = defaults.get('join_type')
+    if not (isinstance(d, ast.Constant) and isinstance(d.value, str)):
+        raise AnalysisError('%s: pylong_join has no constant default join type' % MODEL_RID)
+    return d.value
+
+
+def from_py_model(text, vmacros, join_default, entry='sa_from', variants=PP_VARIANTS, machines=MACHINES, signs=(True, False), size_is_type=False,
+                  with_objects=True, what='TYPE'):
+    """-> (runs, [(key, message)] problems (first per kind and variant), [notes]).  size_is_type: the type under test is Py_ssize_t itself
+    (size_t / Py_ssize_t / SIZEOF_SIZE_T of the model machine follow its width)"""
+    probs, notes, runs = [], [], 0
+    seen = set()
+    cache = {}
+    for vname, cfg in variants:
+        first_variant = vname == variants[0][0]
+        for mname, tbits, lbits, llbits in machines:
+            cfg2 = dict(cfg)
+            cfg2['PyLong_SHIFT'] = DIGIT_BITS
+            cfg2['SIZEOF_SIZE_T'] = (tbits if size_is_type else 16) // 8
+            sel = MC.select_variant(text, pp_truth(cfg2))
+            funcs = MC.functions(sel)
+            if entry not in funcs:
+                raise AnalysisError('%s: the instantiated template does not define %s in the variant "%s"' % (MODEL_RID, entry, vname))
+            for signed in signs:
+                model = model_machine(tbits, signed, lbits, llbits, tbits if size_is_type else 16)
+                state = _State()
+                state.little = not (tbits > llbits and not signed)       # the widest machine is evaluated big-endian for the unsigned TYPE, little-endian for the signed one
+                it = MC.Interp(model, funcs, vmacros, model_hooks(state, join_default), cache)
+                it.globals = {'PyLong_SHIFT': (DIGIT_BITS, 8, True), 'Py_False': MC.Opaque('const', 'Py_False'), 'Py_LT': (0, 8, True),
+                              'PyExc_OverflowError': MC.Opaque('exc', 'OverflowError'), 'PyExc_TypeError': MC.Opaque('exc', 'TypeError'),
+                              'PyExc_RuntimeError': MC.Opaque('exc', 'RuntimeError'), 'PyExc_ValueError': MC.Opaque('exc', 'ValueError')}
+                for k, v in NATIVE_FLAGS.items():
+                    it.globals[k] = (v, 8, True)
+                vals = model_values(tbits)
+                if not first_variant:
+                    vals = [v for v in vals if abs(v) <= 80 or (abs(v) & (abs(v) - 1)) == 0 or (abs(v) + 1) & abs(v) == 0 or ((abs(v) - 1) & (abs(v) - 2)) == 0]
+                lo, hi = MC.lo_hi(tbits, signed)
+                objs = [(v, _pyobj(v), v) for v in vals]
+                if first_variant and with_objects:
+                    objs += [('an object with __index__ returning %d' % v, _pyobj(('index', v)), v) for v in (5, -3, hi, hi + 1)]
+                    objs.append(('an object that is not a number', _pyobj(('other',)), None))
+                for label, o, v in objs:
+                    runs += 1
+                    state.err = None
+                    it.steps = 0
+                    it.trace = []
+                    where = 'converting %s to %s %d-bit %s (%s; build variant: %s)' % (label, 'a signed' if signed else 'an unsigned', tbits, what, mname, vname)
+                    try:
+                        r = it.call_func(funcs[entry], [o])
+                    except MC.CUndefined as u:
+                        k = ('undefined', vname)
+                        if k not in seen:
+                            seen.add(k)
+                            probs.append(('undefined', '%s executes undefined behaviour in %s: %s' % (where, '>'.join(it.trace[-2:]), u)))
+                        continue
+                    except MC.Unsupported as u:
+                        note = 'not decided: %s reaches C text outside the modelled subset in %s (%s)' % (mname + ', ' + vname, '>'.join(it.trace[-2:]), u)
+                        if note not in notes:
+                            notes.append(note)
+                        break
+                    sentinel = MC.wrap(-1, tbits, signed)
+                    kind = msg = None
+                    if v is None:
+                        if state.err != 'TypeError' or r[0] != sentinel:
+                            kind, msg = 'non-int', '%s: expected TypeError and (TYPE) -1, got %s and %d' % (where, state.err or 'no exception', r[0])
+                    elif lo <= v <= hi:
+                        if state.err is not None:
+                            kind, msg = 'spurious-error', '%s: the value fits (%d..%d) but %s is raised (through %s)' % (where, lo, hi, state.err, '>'.join(it.trace[-2:]))
+                        elif r[0] != v:
+                            kind, msg = 'wrong-value', '%s: the value fits but the function returns %d without an exception (through %s)' % (where, r[0], '>'.join(it.trace[-2:]))
+                    else:
+                        if state.err is None:
+                            kind, msg = 'unflagged', ('%s: the value does not fit (%d..%d) but no exception is set and %d is returned (through %s): silent wrap-around instead of OverflowError'
+                                                      % (where, lo, hi, r[0], '>'.join(it.trace[-2:])))
+                        elif state.err != 'OverflowError':
+                            kind, msg = 'wrong-exception', '%s: the value does not fit; expected OverflowError, got %s' % (where, state.err)
+                        elif r[0] != sentinel:
+                            kind, msg = 'sentinel', '%s: OverflowError is set but the function returns %d instead of (TYPE) -1: the caller does not notice the error' % (where, r[0])
+                    if kind and (kind, vname) not in seen:
+                        seen.add((kind, vname))
+                        probs.append((kind, msg))
+    return runs, probs, notes
+
+
+MODEL_POSITIVE = '''
+static CYTHON_INLINE sa_t sa_from(PyObject *x) {
+    const digit* digits = __Pyx_PyLong_Digits(x);
+    const Py_ssize_t size = __Pyx_PyLong_DigitCount(x);
+    if (size == 0) return 0;
+    if (size == 3 && (8 * sizeof(sa_t) > 2 * PyLong_SHIFT)) {
+        return (sa_t) __imported_pylong_join(3, digits, sa_t);
+    }
+    __PYX_VERIFY_RETURN_INT_EXC(sa_t, long, PyLong_AsLong(x))
+raise_neg_overflow:
+raise_overflow:
+    PyErr_SetString(PyExc_OverflowError, "x");
+    return (sa_t) -1;
+}
+'''
+
+
+def rule_model(ctx, floor=30):
+    r = Rule(MODEL_RID, 'CIntFromPy returns exactly v for every Python int that fits and raises OverflowError / returns (TYPE) -1 otherwise, and CIntToPy hands back the value of the C integer: '
+                        'bounded model check of the instantiated templates on model machines (8..32-bit TYPE, 3-bit digits), five preprocessor variants', floor)
+    text, vmacros = instantiate_from_py(ctx)
+    jd = join_default_type(ctx)
+    raw = P4.section_texts(ctx.cat, TC, SECTION)['impl']
+    runs, probs, notes = from_py_model(text, vmacros, jd)
+    for vname, _cfg in PP_VARIANTS:
+        for mname, tbits, lbits, llbits in MACHINES:
+            r.inst('%s:%s:%s:%s' % (TC, SECTION, vname, mname), sample='%s: %s / %s' % (SECTION, vname, mname))
+    for n in notes:
+        r.info(n)
+    for kind, msg in probs:
+        r.violate('%s:%s:%s' % (TC, SECTION, kind), REL, raw.line, 'CIntFromPy: ' + msg)
+    # ---- the hand-written Py_ssize_t converter behind Py_ssize_t / Py_hash_t / index conversions
+    stext = _ssize_text(ctx)
+    sline = P4.section_texts(ctx.cat, TC, 'TypeConversions')['impl'].line
+    smach = (('8-bit Py_ssize_t', 8, 8, 16), ('16-bit Py_ssize_t', 16, 8, 16))
+    sruns, sprobs, snotes = from_py_model(stext, {}, jd, entry='__Pyx_PyIndex_AsSsize_t', variants=(PP_VARIANTS[0], PP_VARIANTS[2]), machines=smach, signs=(True,),
+                                          size_is_type=True, with_objects=True, what='Py_ssize_t')
+    for vname in (PP_VARIANTS[0][0], PP_VARIANTS[2][0]):
+        for m in smach:
+            r.inst('%s:TypeConversions:__Pyx_PyIndex_AsSsize_t:%s:%s' % (TC, vname, m[0]), sample='__Pyx_PyIndex_AsSsize_t: %s / %s' % (vname, m[0]))
+    for n in snotes:
+        r.info(n)
+    for kind, msg in sprobs:
+        r.violate('%s:TypeConversions:__Pyx_PyLong_AsSsize_t:%s' % (TC, kind), REL, sline, '__Pyx_PyIndex_AsSsize_t / __Pyx_PyLong_AsSsize_t: ' + msg)
+    # ---- to Python
+    truns, tprobs, tnotes = to_py_model(ctx)
+    for vname, _c in TO_PY_VARIANTS:
+        for mname, tbits, lbits, llbits in MACHINES:
+            r.inst('%s:CIntToPy:%s:%s' % (TC, vname, mname), sample='CIntToPy: %s / %s' % (vname, mname))
+    for n in tnotes:
+        r.info(n)
+    tline = P4.section_texts(ctx.cat, TC, 'CIntToPy')['impl'].line
+    for kind, msg in tprobs:
+        r.violate('%s:CIntToPy:%s' % (TC, kind), REL, tline, 'CIntToPy: ' + msg)
+    r.info('%d + %d + %d conversions evaluated' % (runs, sruns, truns))
+    pruns, pprobs, pnotes = from_py_model(MODEL_POSITIVE, vmacros, jd, variants=PP_VARIANTS[:1], machines=MACHINES[1:2])
+    r.positive_control(any(k in ('unflagged', 'undefined', 'wrong-value') for k, _m in pprobs), 'three 3-bit digits joined into an 8-bit TYPE without a range check')
+    return r
+
+
+def _ssize_text(ctx):
+    raw = P4.section_texts(ctx.cat, TC, 'TypeConversions')['impl'].raw
+    out = []
+    for fname in ('__Pyx_PyLong_AsSsize_t', '__Pyx_PyIndex_AsSsize_t'):
+        m = re.search(r'^static\s+CYTHON_INLINE\s+Py_ssize_t\s+%s\s*\([^)]*\)\s*\{' % fname, raw, re.M)
+        if not m:
+            raise AnalysisError('%s: %s vanished from TypeConversion.c::TypeConversions' % (MODEL_RID, fname))
+        depth, j = 0, m.end() - 1
+        while j < len(raw):
+            if raw[j] == '{' and raw[j:j + 2] != '{{':
+                depth += 1
+            elif raw[j] == '}' and raw[j - 1:j + 1] != '}}' and raw[j:j + 2] != '}}':
+                depth -= 1
+                if depth == 0:
+                    break
+            j += 1
+        out.append(raw[m.start():j + 1])
+    text = '{{py: from Cython.Utility import pylong_join }}\n' + '\n\n'.join(out)
+    text = P2.tpl_expand(P2.tpl_tree(text), {})
+    text = _normalise(strip_c_comments(text))
+    # PyNumber_Index(b) of the model objects is the contract of __Pyx_PyNumber_Long
+    return text.replace('PyNumber_Index(', '__Pyx_PyNumber_Long(')
+
+
+TO_PY_VARIANTS = (PP_VARIANTS[0], PP_VARIANTS[1], PP_VARIANTS[3])
+
+
+def to_py_hooks(state):
+    def from_c(tname):
+        def h(it, args, env):
+            v = it._int(it.ev(args[0], env))
+            t = it.model.ctype(tname)
+            return _pyobj(MC.wrap(v[0], t[0], t[1]))
+        return h
+
+    def from_bytes(signed_arg):
+        def h(it, args, env):
+            ref = it.ev(args[0], env)
+            n = it._int(it.ev(args[1], env))[0]
+            if not isinstance(ref, MC.Ref):
+                raise MC.Unsupported('byte-array conversion of something that is not the address of a variable')
+            if signed_arg == 'flag':
+                little = it._int(it.ev(args[2], env))[0]
+                is_signed = bool(it._int(it.ev(args[3], env))[0])
+                if bool(little) != state.little:
+                    raise MC.CUndefined('the byte order flag passed to _PyLong_FromByteArray is not the byte order of the machine')
+            else:
+                is_signed = signed_arg
+            c = ref.cell
+            if c.t[0] != 8 * n:
+                raise MC.CUndefined('%d bytes are read from a %d-bit variable' % (n, c.t[0]))
+            return _pyobj(MC.wrap(c.v, c.t[0], is_signed))
+        return h
+    return {'PyLong_FromLong': from_c('long'), 'PyLong_FromUnsignedLong': from_c('unsigned long'), 'PyLong_FromLongLong': from_c('long long'),
+            'PyLong_FromUnsignedLongLong': from_c('unsigned long long'), 'PyLong_FromSsize_t': from_c('Py_ssize_t'), 'PyLong_FromSize_t': from_c('size_t'),
+            '_PyLong_FromByteArray': from_bytes('flag'), 'PyLong_FromNativeBytes': from_bytes(True), 'PyLong_FromUnsignedNativeBytes': from_bytes(False),
+            '__sa_first_byte': lambda it, a, e: (int(state.little), 8, True)}
+
+
+def to_py_model(ctx, raw=None):
+    if raw is None:
+        raw = P4.section_texts(ctx.cat, TC, 'CIntToPy')['impl'].raw
+    text = _normalise(strip_c_comments(P2.tpl_expand(P2.tpl_tree(raw), {'TYPE': 'sa_t', 'TO_PY_FUNCTION': 'sa_to'})))
+    probs, notes, runs, seen, cache = [], [], 0, set(), {}
+    for vname, cfg in TO_PY_VARIANTS:
+        sel = MC.select_variant(text, pp_truth(cfg))
+        funcs = MC.functions(sel)
+        if 'sa_to' not in funcs:
+            raise AnalysisError('%s: CIntToPy does not define {{TO_PY_FUNCTION}} in the variant "%s"' % (MODEL_RID, vname))
+        for mname, tbits, lbits, llbits in MACHINES:
+            for signed in (True, False):
+                model = model_machine(tbits, signed, lbits, llbits)
+                state = _State()
+                state.little = not (tbits > llbits and signed)
+                it = MC.Interp(model, funcs, {}, to_py_hooks(state), cache)
+                lo, hi = MC.lo_hi(tbits, signed)
+                if tbits <= 8:
+                    vals = range(lo, hi + 1)
+                else:
+                    vals = set(range(-130, 131)) | {lo, lo + 1, lo + 2, hi - 2, hi - 1, hi}
+                    for k in range(6, tbits + 1):
+                        vals |= {(1 << k) + d for d in (-1, 0, 1)} | {-(1 << k) + d for d in (-1, 0, 1)}
+                    vals = sorted(v for v in vals if lo <= v <= hi)
+                for v in vals:
+                    runs += 1
+                    it.steps, it.trace = 0, []
+                    where = 'converting the C value %d of %s %d-bit TYPE to Python (%s; build variant: %s)' % (v, 'a signed' if signed else 'an unsigned', tbits, mname, vname)
+                    try:
+                        r = it.call_func(funcs['sa_to'], [(v, tbits, signed)])
+                    except MC.CUndefined as u:
+                        if ('undefined', vname) not in seen:
+                            seen.add(('undefined', vname))
+                            probs.append(('undefined', '%s: %s' % (where, u)))
+                        continue
+                    except MC.Unsupported as u:
+                        note = 'not decided: CIntToPy, %s, %s: C text outside the modelled subset (%s)' % (mname, vname, u)
+                        if note not in notes:
+                            notes.append(note)
+                        break
+                    got = r.v if isinstance(r, MC.Opaque) and r.kind == 'pyobj' else None
+                    if got != v and ('wrong-value', vname) not in seen:
+                        seen.add(('wrong-value', vname))
+                        probs.append(('wrong-value', '%s yields the Python int %s' % (where, got)))
+    return runs, probs, notes
